@@ -9,7 +9,7 @@ from rdflib.plugins.sparql.sparql import SPARQLError
 
 from ..consts import SH, RDFS_comment, SH_ask, SH_parameter, SH_select
 from ..errors import ConstraintLoadError, ReportableRuntimeError
-from ..helper import get_query_helper_cls
+from ..helper import get_query_helper_cls, query_from_shapes_graph
 from ..parameter import SHACLParameter
 
 if typing.TYPE_CHECKING:
@@ -147,7 +147,9 @@ class SPARQLFunction(SHACLFunction):
 
     def execute_select(self, g: 'GraphLike', init_bindings: Dict):
         s = self._qh.apply_prefixes(self.select)
-        results = g.query(s, initBindings=init_bindings)
+        results = query_from_shapes_graph(
+            g, s, init_bindings, ConstraintLoadError, "The sh:select of a SPARQL function"
+        )
         if results.type != "SELECT" or results.vars is None:
             raise ReportableRuntimeError("Was expecting an SELECT response from the Select query.")
         rvars = len(results.vars)
@@ -161,7 +163,7 @@ class SPARQLFunction(SHACLFunction):
 
     def execute_ask(self, g: 'GraphLike', init_bindings: Dict):
         a = self._qh.apply_prefixes(self.ask)
-        results = g.query(a, initBindings=init_bindings)
+        results = query_from_shapes_graph(g, a, init_bindings, ConstraintLoadError, "The sh:ask of a SPARQL function")
         if results.type != "ASK":
             raise ReportableRuntimeError("Was expecting an ASK response from the Ask query.")
         return Literal(results.askAnswer)
